@@ -46,6 +46,13 @@ CHECKS = {
         "${x-U}, declare -p and the environment received by a child (envq) in bash and in brush.",
    note="Trusted: TLC, bash 5.2.15 (programs where bash itself departs from the model, ~8%, are not judged - mostly bash's tempenv propagation rules), the envq helper. Statuses of the steps are not compared, only the state. Five recorded findings.",
    ref="DESIGN.md section 6 C09"),
+ "C10": dict(level=MC, thorough=True, tech="TLA+ Fd.tla (open file descriptions with shared offsets, per-command copy of the descriptor table, left-to-right redirection lists, noclobber, exec) and HereDoc.tla (delimiter forms, tab stripping, expansion and backslash rules) evaluated by TLC on programs drawn by index (MC_Fd.tla) and on every short line sequence (MC_HereDoc.tla); replayed in brush with bash audit using a probe command that reports the descriptors it received",
+   text="Fd.tla: Redirs applies a list left to right to a copy of the table, the first failure stops it; Probe writes a tag to every writable descriptor and reports descriptors with access modes and what it read from 0; exec threads the table to "
+        "the following statements. 6000 programs (quick) with lists of <= 3 of 34 redirections on simple commands and on seven kinds of compound commands nested two levels are compared on file contents, stdout / stderr tag sequences and probe "
+        "reports, and a final probe inventories the shell's own table. HereDoc.tla: Body(form, lines) for every sequence of <= 2 (thorough 3) of 25 lines x 4 delimiter forms in 7 syntactic placements.",
+   note="Trusted: TLC, bash 5.2.15 (audit), the fdprobe helper (it treats /dev/null on 0-2 as 'closed' because the Rust runtime opens it there). Diagnostics are ignored; when a diagnostic lands in a compared file through a redirected stderr "
+        "the file contents of that program are not compared; sizes of holes are not compared. Two recorded findings (unterminated documents, lone backslash line).",
+   ref="DESIGN.md section 6 C10"),
  "C11": dict(level=MC, thorough=True, tech="TLA+ Pipeline.tla (bounded pipes, end holders, spawn/wait order; deadlock + liveness for all stage-kind/payload/early-exit configurations) + trace validation (Trace_Pipeline.tla) + replay with real sizes against bash",
    text="TLC checks InOrderOnce, AllDelivered, NoLeakedEnds, SpawnBeforeWait, deadlock freedom and termination for every configuration of 3 (thorough 4) stages x payloads around the pipe capacity x early-exit readers, "
         "and shows that the former as-built rule (compound stage run inline) deadlocks; the same configurations are run with real stage kinds and 10 B - 1 MiB (8 MiB) payloads in brush and bash "
